@@ -507,38 +507,41 @@ impl<'a> From<Piece<'a>> for Chunk {
                         return Chunk::Error("expected at most two arguments".to_owned());
                     }
 
-                    let key = match formatter.args.first() {
-                        Some(arg) => {
-                            if let Some(arg) = arg.first() {
-                                match arg {
-                                    Piece::Text(key) => key.to_owned(),
-                                    Piece::Error(ref e) => return Chunk::Error(e.clone()),
-                                    _ => return Chunk::Error("invalid MDC key".to_owned()),
-                                }
-                            } else {
-                                return Chunk::Error("invalid MDC key".to_owned());
+                    // An argument is a format string: escaped characters arrive as separate
+                    // text pieces, so the key and the default are the concatenation of them.
+                    let text = |arg: &[Piece], what: &str| -> Result<String, Chunk> {
+                        if arg.is_empty() {
+                            return Err(Chunk::Error(format!("invalid MDC {}", what)));
+                        }
+                        let mut text = String::new();
+                        for piece in arg {
+                            match piece {
+                                Piece::Text(t) => text.push_str(t),
+                                Piece::Error(ref e) => return Err(Chunk::Error(e.clone())),
+                                _ => return Err(Chunk::Error(format!("invalid MDC {}", what))),
                             }
                         }
+                        Ok(text)
+                    };
+
+                    let key = match formatter.args.first() {
+                        Some(arg) => match text(arg, "key") {
+                            Ok(key) => key,
+                            Err(chunk) => return chunk,
+                        },
                         None => return Chunk::Error("missing MDC key".to_owned()),
                     };
 
                     let default = match formatter.args.get(1) {
-                        Some(arg) => {
-                            if let Some(arg) = arg.first() {
-                                match arg {
-                                    Piece::Text(key) => key.to_owned(),
-                                    Piece::Error(ref e) => return Chunk::Error(e.clone()),
-                                    _ => return Chunk::Error("invalid MDC default".to_owned()),
-                                }
-                            } else {
-                                return Chunk::Error("invalid MDC default".to_owned());
-                            }
-                        }
-                        None => "",
+                        Some(arg) => match text(arg, "default") {
+                            Ok(default) => default,
+                            Err(chunk) => return chunk,
+                        },
+                        None => String::new(),
                     };
 
                     Chunk::Formatted {
-                        chunk: FormattedChunk::Mdc(key.into(), default.into()),
+                        chunk: FormattedChunk::Mdc(key, default),
                         params: parameters,
                     }
                 }
